@@ -23,8 +23,13 @@ def worker(k, q, tier, out_lock):
             print(f"slot {k}: cannot create worktree: {r.stdout}")
             return
     else:
-        sh(f"git -C {wt} checkout -q --detach $(git -C /repo rev-parse HEAD) && git -C {wt} reset -q --hard && git -C {wt} clean -fdq")
-    env = dict(os.environ, VERIF_REPO=wt, VERIF_TARGET_DIR=f"{slot}/target", VERIF_OUT=f"{slot}/out")
+        # (a job killed half-way leaves its change applied: clean first, or the checkout is refused)
+        sh(f"git -C {wt} reset -q --hard; git -C {wt} clean -fdq; git -C {wt} checkout -q --detach $(git -C /repo rev-parse HEAD) && git -C {wt} reset -q --hard && git -C {wt} clean -fdq")
+        r = sh(f"git -C {wt} rev-parse HEAD; git -C /repo rev-parse HEAD")
+        if len(set(r.stdout.split())) != 1:
+            print(f"slot {k}: worktree is not at /repo's HEAD: {r.stdout}")
+            return
+    env = dict(os.environ, VERIF_REPO=wt, VERIF_TARGET_DIR=f"{slot}/target", VERIF_OUT=f"{slot}/out", VERIF_HARNESS_SRC=SNAP)
     while True:
         try:
             job = q.get_nowait()
@@ -64,7 +69,14 @@ def worker(k, q, tier, out_lock):
                 print(f"{label} {c} rc={r.returncode} {summ.group(1) if summ else '?'} violations={summ.group(2) if summ else '?'} {top}{extra}", flush=True)
         sh(f"git -C {wt} reset -q --hard && git -C {wt} clean -fdq")
 
+SNAP = "/verif/harness/src"
+
 def main():
+    global SNAP
+    # frozen copy of the harness sources for this run
+    SNAP = f"/tmp/bv_src_snap_{os.getpid()}"
+    shutil.rmtree(SNAP, ignore_errors=True)
+    shutil.copytree("/verif/harness/src", SNAP)
     args = sys.argv[1:]
     n = 6
     tier = "quick"
@@ -86,5 +98,6 @@ def main():
     ths = [threading.Thread(target=worker, args=(k, q, tier, lock)) for k in range(n)]
     for t in ths: t.start()
     for t in ths: t.join()
+    shutil.rmtree(SNAP, ignore_errors=True)
 
 main()
